@@ -18,6 +18,9 @@ func (e *Engine) verifyFunc(fn *ssa.Function, ct *Contract, prop string) *Run {
 	for _, u := range ct.Uses {
 		st.uses[u] = true
 	}
+	for _, u := range ct.Needs {
+		r.needs[u] = true
+	}
 	r.vars = map[string]*Val{}
 	var args, bind []*Val
 	for _, p := range fn.Params {
